@@ -348,10 +348,38 @@ def strat_family(draw):
 # ---------------------------------------------------------------------------
 # command line tools
 
+def expected_after(n, targs):
+    """documented number of variables after the -T steps, from the number before them"""
+    steps, cur = [], None
+    for t in targs:
+        if t == '-T':
+            cur = []
+            steps.append(cur)
+        elif cur is not None:
+            cur.append(t)
+    for st_ in steps:
+        name = st_[0]
+        nums = [int(x) for x in st_[1:] if x.lstrip('-').isdigit()]
+        if name in ('xor', 'or', 'maj', 'eq', 'neq', 'one', 'atleast', 'atmost', 'exact', 'anybut'):
+            n = n * nums[0]
+        elif name == 'ite':
+            n = 3 * n
+        elif name == 'lift':
+            n = 2 * nums[0] * n
+        elif name in ('xorcomp', 'majcomp'):
+            if not nums:
+                return None
+            n = nums[0]
+        elif name not in ('flip', 'none', 'shuffle'):
+            return None
+    return n
+
+
 def run_cli(case):
-    f = catalog.FAMILIES[case['fam']]
+    f = catalog.FAMILIES[case['fam']] if 'fam' in case else None
     with catalog.Ctx() as ctx:
-        args = ['--seed', str(case['seed']), f.name] + [str(x) for x in f.argv(case['p'], ctx)] + case.get('targs', [])
+        base = ['--seed', str(case['seed'])] + ([f.name] + [str(x) for x in f.argv(case['p'], ctx)] if f is not None else list(case['raw']))
+        args = base + case.get('targs', [])
         tool = case['tool']
         if tool == 'pbgen':
             args = [a for a in args]
@@ -361,8 +389,34 @@ def run_cli(case):
             F = cli.build(tool, args)
         except CLIError:
             return Outcome(rejected=True, nontrivial=False, labels=['rejected'])
-        audit(F, "{} {}".format(tool, ' '.join(args[:14])))
-    return Outcome(labels=[tool, f.name], nontrivial=len(F) >= 3)
+        exp = None
+        if tool == 'cnfgen' and '-T' in args:
+            # the declared number after the chain is the documented function of the number before it
+            F0 = cli.build(tool, base)
+            exp = expected_after(F0.number_of_variables(), args[args.index('-T'):])
+        audit(F, "{} {}".format(tool, ' '.join(args[:14])), exp)
+    labels = [tool, f.name if f is not None else case['raw'][0]]
+    if len(F) == 0 and F.number_of_variables() > 0:
+        labels.append('no-clauses')
+    if exp is not None:
+        labels.append('count-after-chain')
+    return Outcome(labels=labels, nontrivial=len(F) >= 3 or exp is not None)
+
+
+def enum_cli(tier):
+    """formulas with variables but (after the chain) no clauses, through every transformation"""
+    bases = [['randkcnf', '3', '5', '0'], ['randkxor', '2', '4', '0'], ['ptn', '4'], ['or', '2', '0'], ['or', '3', '0'], ['and', '0', '0'],
+             ['php', '0', '3'], ['true']]
+    ts = [['xor', '2'], ['or', '2'], ['maj', '3'], ['eq', '2'], ['neq', '2'], ['one', '2'], ['ite'], ['lift', '2'], ['flip'], ['shuffle'], ['none'],
+          ['atleast', '2', '1'], ['atmost', '2', '2'], ['exact', '2', '1'], ['anybut', '2', '3'], ['xorcomp', '4', '2'], ['majcomp', '3', '2']]
+    k = 0
+    for b in bases:
+        for t in ts:
+            for t2 in ([], ['xor', '2']):
+                k += 1
+                if tier == 'quick' and t2 and k % 3:
+                    continue
+                yield {'raw': b, 'targs': ['-T'] + t + (['-T'] + t2 if t2 else []), 'tool': 'cnfgen', 'seed': k}
 
 
 @st.composite
@@ -652,9 +706,9 @@ SUBCHECKS = [
     SubCheck('families', run_family, strategy=strat_family, quick=1600, thorough=40000,
              rule="every family through the library at realistic sizes (php up to 40x30, graph families on gnm/regular/grid graphs up to 60 vertices from seeded networkx generators, op 16, stone 14x6, cpls 4x8x8, pitfall 10 vertices, vdw 60, ptn 300, random 4-CNF 200x400, ...), CNF and OPB classes, followed by chains of 0..3 transformations (one clause-expanding step; size bounded before building); oracle: every literal a non-zero int (not bool) within 1..number_of_variables(), OPB coefficients positive, number_of_variables() equals the documented count re-derived from the parameters, as many names as variables, no freshness event (hook H1), input untouched by the chain; non-trivial: >=100 rows or a chain applied",
              required_labels=sorted(INSTANCES) + ['CNF', 'OPB', 'chain-length>=2', 'T:xorcomp', 'T:lift', 'T:shuffle']),
-    SubCheck('tools', run_cli, strategy=strat_cli, quick=600, thorough=20000,
-             rule="every sub-command of the catalogue through cnfgen (with -T chains) and pbgen built in-process; same structural oracle on the returned object",
-             required_labels=['cnfgen', 'pbgen']),
+    SubCheck('tools', run_cli, strategy=strat_cli, enumerate_cases=enum_cli, quick=600, thorough=20000,
+             rule="every sub-command of the catalogue through cnfgen (with -T chains) and pbgen built in-process; same structural oracle on the returned object, and for cnfgen with -T the declared number of variables equals the documented function (x k, x 3, x 2k, N) of the number declared without the chain; enumerated: formulas with variables but no clauses (randkcnf k n 0, ptn 4, or 2 0 -T atmost 2 2, ...) through every transformation and pairs of transformations",
+             required_labels=['cnfgen', 'pbgen', 'no-clauses', 'count-after-chain']),
     SubCheck('history', run_history, strategy=strat_history, quick=1500, thorough=60000,
              rule="op logs (1..30 steps) on CNF and OPB: all eleven group constructors with generated shapes (empty groups included), add_clause(check=True) with arbitrary literals up to 40, add_clause(check=False) and check=False builders restricted to declared variables, checked builders, update_variable_number, add_clauses_from on lists and on lazy iterables that allot variables/blocks between two clauses, OPB add_constraint/add_constraints_from with (coefficient, literal) pairs given as tuples or as lists and all five operators, insertions that must be refused (literal 0, a string literal, an unknown operator, through add_clause / add_clauses_from / add_parity / cardinality_leq / add_linear / add_constraint: ValueError, no row kept, declared count unchanged); model: the largest identifier mentioned/allotted so far; after every step: new group contiguous and strictly above the model value, declared count never decreases and covers the model value; at the end the structural oracle + empty H1 record; non-trivial: >=2 group creations separated by an insertion that raised the count",
              required_labels=GROUP_OPS + ['CNF', 'OPB', 'allot-inside-batch', 'constraint-pairs:list', 'constraint-pairs:tuple', 'refused-insertion']),
